@@ -16,9 +16,25 @@ Arguments Lower {T}. Arguments Upper {T}. Arguments Both {T}.
 (* mfront_gmp_OutOfBoundsPolicy: NONE = 0, WARNING = 1, STRICT = 2 *)
 Inductive policy := PNone | PWarning | PStrict.
 
-(* F11: `AsFound` = the pinned tree (the Strict branch emitted for an upper-bound-only variable returns without
-   `errno = mfront_errno_old;`), `Fixed` = with that line *)
-Inductive variant := AsFound | Fixed.
+(* variants of the emission (the check selects the one the generated code exhibits):
+   `AsFound`    = the pinned tree: the Strict branch emitted for an upper-bound-only variable returns without
+                  `errno = mfront_errno_old;` (finding F11, repaired since);
+   `Fixed`      = with that line; the computed value is still returned with status -3 / -4 (second finding: the
+                  documentation says that every negative status returns nan);
+   `Documented` = additionally `return std::nan("")` whenever the final status is negative *)
+Inductive variant := AsFound | Fixed | Documented.
+
+(* lines of the parameters file `<name>-parameters.txt` as the generated handler classifies them
+   (mfront/src/MaterialPropertyParametersHandler.cxx): no token; first token beginning with '#'; exactly two tokens
+   (is the first a parameter name / external name?  does the second convert to a double?); any other token count *)
+Inductive pline := PBlank | PComment | PAssign (known convertible : bool) | PTokens.
+
+(* DSL options of the declaration that change the emitted function *)
+Record options := Opt {
+  o_params : bool;      (* at least one @Parameter *)
+  o_static : bool;      (* parameters_as_static_variables *)
+  o_from_file : bool;   (* parameters_initialization_from_file (default true) *)
+  o_nochecks : bool }.  (* disable_runtime_checks *)
 
 (* what the @Function body does once it runs: the value it leaves in the output variable and the value it leaves in
    errno (0 = untouched, since the wrapper zeroes errno before), or a C++ exception *)
@@ -97,11 +113,12 @@ Section Model.
     end.
 
   (* end of the emitted function: errno test, errno restored, finiteness test *)
-  Definition finish (st bs : Z) (v : ext T) (el e0 : Z) : result T :=
+  Definition finish (vr : variant) (st bs : Z) (v : ext T) (el e0 : Z) : result T :=
     let st1 := if Z.eqb el 0 then st else -3 in
     let cen := if Z.eqb el 0 then 0 else el in
     let st2 := if isfinite v then st1 else -4 in
-    Res st2 bs cen v e0.
+    let r := match vr with Documented => if Z.ltb st2 0 then NaN else v | _ => v end in
+    Res st2 bs cen r e0.
 
   (* the generic-interface function *)
   Definition generic (vr : variant) (d : decl) (args : list (ext T)) (nargs : nat) (p : policy) (e0 : Z)
@@ -120,7 +137,7 @@ Section Model.
           if oob_opt (v_phys (output d)) v then Res (-1) (- Z.of_nat (S n)) 0 NaN e0 else
           match bound_step vr p (S n) (output d) v st bs with
           | Stop i restores => Res (-1) (- Z.of_nat i) 0 NaN (if restores then e0 else el)
-          | Cont st' bs' => finish st' bs' v el e0
+          | Cont st' bs' => finish vr st' bs' v el e0
           end
         end
       end
@@ -135,7 +152,100 @@ Section Model.
               | None => 0
               end
     end.
+
+  (* ---- DSL options: parameters file (status -6), static parameters, disabled runtime checks ------------------- *)
+  Definition pline_ok (l : pline) : bool :=
+    match l with PBlank | PComment => true | PAssign known conv => known && conv | PTokens => false end.
+  (* is the file `<name>-parameters.txt` of the current directory read at the first call? *)
+  Definition reads_file (o : options) : bool := o_params o && negb (o_static o) && o_from_file o.
+  (* `ok` member of the handler singleton; pf = None: no such file *)
+  Definition handler_ok (o : options) (pf : option (list pline)) : bool :=
+    match pf with None => true | Some ls => negb (reads_file o) || forallb pline_ok ls end.
+
+  (* disable_runtime_checks: no errno bookkeeping, no argument count, no bounds, no errno / finiteness test *)
+  Definition generic_nochecks (e0 : Z) (body : outcome T) : result T :=
+    match body with
+    | Throws => Res (-2) 0 0 NaN e0
+    | Returns v el => Res 0 0 0 v (if Z.eqb el 0 then e0 else el)
+    end.
+
+  Definition generic_opt (vr : variant) (o : options) (pf : option (list pline)) (d : decl) (args : list (ext T))
+             (nargs : nat) (p : policy) (e0 : Z) (body : outcome T) : result T :=
+    if o_nochecks o then generic_nochecks e0 body else
+    if Nat.eqb nargs (length (inputs d)) && negb (handler_ok o pf) then Res (-6) 0 0 NaN e0 else
+    generic vr d args nargs p e0 body.
+
+  (* ---- c++ interface (mfront/src/CppMaterialPropertyInterface.cxx) ------------------------------------------ *)
+  (* policy in force: OUT_OF_BOUNDS_POLICY (STRICT / WARNING / anything else = nothing done) unless the DSL option
+     out_of_bounds_policy_runtime_modification is false; default_out_of_bounds_policy when the variable is unset *)
+  Definition cxx_policy (dflt : policy) (rtmod : bool) (env : option policy) : policy :=
+    if rtmod then match env with Some p => p | None => dflt end else dflt.
+
+  (* ranks (from i) of all the variables whose selected bounds are violated *)
+  Fixpoint all_oob (sel : var -> option (bounds T)) (i : nat) (vs : list var) (args : list (ext T)) : list nat :=
+    match vs, args with
+    | v :: vs', a :: args' => if oob_opt (sel v) a then i :: all_oob sel (S i) vs' args' else all_oob sel (S i) vs' args'
+    | _, _ => []
+    end.
+
+  (* static void checkBounds(args...): throws std::range_error naming a variable, or returns after having written
+     the out-of-bounds variables to std::cerr (Warning) *)
+  Inductive cxx_cb := CbThrow (rank : nat) (physical : bool) | CbPass (warned : list nat).
+  Definition cxx_checkBounds (nochecks : bool) (d : decl) (args : list (ext T)) (p : policy) : cxx_cb :=
+    if nochecks then CbPass [] else
+    match first_oob v_phys 1 (inputs d) args with
+    | Some i => CbThrow i true
+    | None =>
+      match p with
+      | PStrict => match first_oob v_bounds 1 (inputs d) args with Some i => CbThrow i false | None => CbPass [] end
+      | PWarning => CbPass (all_oob v_bounds 1 (inputs d) args)
+      | PNone => CbPass []
+      end
+    end.
+
+  (* double operator()(args...) const *)
+  Inductive cxx_out :=
+  | XRange (rank : nat) (physical : bool)     (* std::range_error naming the variable of that rank (n+1: output) *)
+  | XRuntime                                  (* std::runtime_error: errno set or non-finite value *)
+  | XLaw                                      (* the exception of the law goes through *)
+  | XValue (v : ext T) (warned : list nat).
+  Definition cxx_call (nochecks : bool) (d : decl) (args : list (ext T)) (p : policy) (body : outcome T) : cxx_out :=
+    let n := length (inputs d) in
+    match cxx_checkBounds nochecks d args p with
+    | CbThrow i ph => XRange i ph
+    | CbPass w =>
+      match body with
+      | Throws => XLaw
+      | Returns v el =>
+        if nochecks then XValue v [] else
+        (* errno and finiteness are only looked at when the property has inputs *)
+        if Nat.ltb 0 n && (negb (Z.eqb el 0) || negb (isfinite v)) then XRuntime else
+        if oob_opt (v_phys (output d)) v then XRange (S n) true else
+        if oob_opt (v_bounds (output d)) v then
+          match p with
+          | PStrict => XRange (S n) false
+          | PWarning => XValue v (w ++ [S n])
+          | PNone => XValue v w
+          end
+        else XValue v w
+      end
+    end.
+
+  (* C interface, main function `double <name>(args...)`: the inputs are NOT checked there; nan for a violated
+     physical bound of the output, an exception, errno set or a non-finite value (the last two only with inputs) *)
+  Definition c_main (nochecks : bool) (d : decl) (body : outcome T) : ext T :=
+    match body with
+    | Throws => NaN
+    | Returns v el =>
+      if nochecks then v else
+      if oob_opt (v_phys (output d)) v then NaN else
+      if Nat.ltb 0 (length (inputs d)) && (negb (Z.eqb el 0) || negb (isfinite v)) then NaN else v
+    end.
+  (* `_checkBounds` with disable_runtime_checks: the function exists and returns 0 *)
+  Definition c_checkBounds_opt (nochecks : bool) (d : decl) (args : list (ext T)) : Z :=
+    if nochecks then 0 else c_checkBounds d args.
 End Model.
 
 Arguments Var {T}. Arguments Decl {T}.
 Arguments v_bounds {T}. Arguments v_phys {T}. Arguments inputs {T}. Arguments output {T}.
+Arguments XRange {T}. Arguments XRuntime {T}. Arguments XLaw {T}. Arguments XValue {T}.
